@@ -70,6 +70,14 @@ def gen_world(r, anp=False, big=False, pods=True, multi_kind=True):
                 nm = ''
             used.add(nm)
             ports.append({'port': r.choice(PORTS), 'proto': r.choice(PROTOS), 'name': nm})
+            if j == 1 and r.random() < 0.25:
+                # one port number under two protocols, each with its own name (dns 53/UDP and dns-tcp 53/TCP)
+                other = [q for q in PROTOS if q != ports[0]['proto']]
+                ports[1]['port'], ports[1]['proto'] = ports[0]['port'], r.choice(other)
+                if not ports[1]['name']:
+                    free = [x for x in NAMES if x not in used]
+                    if free:
+                        ports[1]['name'] = free[0]; used.add(free[0])
         kind = r.choice(WL_KINDS) if multi_kind else 'Deployment'
         if kind == 'Pod' and not pods:
             kind = 'Deployment'
